@@ -280,6 +280,67 @@ theorem has_set_other {strict : Bool} {accepts : Nat → Val → Except Err Unit
     | .leaf _, _ :: _ => simp [setP] at h
     | .pynone, _ :: _ => simp [setP] at h
 
+/-! ## histories: several assignments, copies of the processor
+
+The model is functional: `copy.deepcopy`, `Processor.replace`, `create_new_processor` and
+`update_processor` hand the *value* `t` to a new owner, and nothing done through the copy can reach the
+original (`t` is still `t`).  What remains to be said is what a processor reads after a whole history of
+assignments made through it. -/
+
+theorem setAll_append {strict : Bool} {accepts : Nat → Val → Except Err Unit} {t t' : Tree}
+    {as bs : List (List String × Val)} (h : setAll strict accepts t (as ++ bs) = .ok t') :
+    ∃ t1, setAll strict accepts t as = .ok t1 ∧ setAll strict accepts t1 bs = .ok t' := by
+  induction as generalizing t with
+  | nil => exact ⟨t, rfl, h⟩
+  | cons a as ih =>
+    obtain ⟨p, v⟩ := a
+    simp only [List.cons_append, setAll] at h ⊢
+    cases hs : setP strict accepts t p v with
+    | error e => rw [hs] at h; cases h
+    | ok t2 =>
+      rw [hs] at h
+      exact ih h
+
+/-- a history of assignments to keys unrelated to `q` leaves what `q` reads untouched -/
+theorem get_after_unrelated_history {strict : Bool} {accepts : Nat → Val → Except Err Unit} {t t' : Tree}
+    {bs : List (List String × Val)} {q : List String} (h : setAll strict accepts t bs = .ok t')
+    (hb : ∀ b ∈ bs, ¬ b.1 <+: q ∧ ¬ q <+: b.1) : getP t' q = getP t q := by
+  induction bs generalizing t with
+  | nil => simp only [setAll] at h; cases h; rfl
+  | cons b bs ih =>
+    obtain ⟨p, v⟩ := b
+    simp only [setAll] at h
+    cases hs : setP strict accepts t p v with
+    | error e => rw [hs] at h; cases h
+    | ok t2 =>
+      rw [hs] at h
+      have h1 := hb (p, v) (by simp)
+      rw [ih h (fun b hb' => hb b (by simp [hb'])), get_set_other hs h1.1 h1.2]
+
+/-- **After any history of assignments made through one processor, a key reads the last value assigned
+to it through that processor** (provided no later assignment went to a prefix or an extension of it) —
+whatever was assigned before, to this key or to others, on this processor or on the one it was copied
+from. -/
+theorem get_after_history {strict : Bool} {accepts : Nat → Val → Except Err Unit} {t t' : Tree}
+    {as bs : List (List String × Val)} {p : List String} {v : Val}
+    (h : setAll strict accepts t (as ++ (p, v) :: bs) = .ok t')
+    (hb : ∀ b ∈ bs, ¬ b.1 <+: p ∧ ¬ p <+: b.1) : getP t' p = .ok (.leaf (some v)) := by
+  obtain ⟨t1, _, h2⟩ := setAll_append h
+  simp only [setAll] at h2
+  cases hs : setP strict accepts t1 p v with
+  | error e => rw [hs] at h2; cases h2
+  | ok t2 =>
+    rw [hs] at h2
+    rw [get_after_unrelated_history h2 hb, get_set_same hs]
+
+/-- Non-vacuity: override, (copy), sweep value on the same key, another key in between. -/
+example :
+    let t : Tree := .node .obj [("m", .rw, .node .args [("level", .rw, .leaf (some (.int 1))), ("seed", .rw, .leaf (some .none))])]
+    ∃ t', setAll true (fun _ _ => .ok ()) t
+        [(["m", "level"], .int 50), (["m", "seed"], .int 7), (["m", "level"], .int 200)] = .ok t' ∧
+      getP t' ["m", "level"] = .ok (.leaf (some (.int 200))) ∧ getP t' ["m", "seed"] = .ok (.leaf (some (.int 7))) :=
+  ⟨_, rfl, rfl, rfl⟩
+
 /-! ## a key either resolves to exactly one existing slot, or is rejected -/
 
 /-- `has` answers `True` exactly for the keys that name an existing slot (`slotAt` is a function:
